@@ -49,10 +49,6 @@ SETIDS = ("T = dset_compress(..) has <number of sets> + 3 cells and every label 
           "<= number of sets")
 
 TABLE = {
-    "dset_initialise": [
-        ("size >= 1 at every call site (DOMAIN, checked there); calloc result is null-checked above",
-         ["S|S[0]"]),
-    ],
     "dset_compress": [
         ("the argument is S[S[0]-1] + 3 where S[S[0]-1] is the number of sets in use, >= 0 by the disjoint-set invariant",
          ["(domain)|dset_initialise(...size...)"]),
@@ -77,9 +73,6 @@ TABLE = {
         (SETIDS, ["T|T[k]"]),
     ],
     "bloboverlaps": [
-        ("link has n1 + n2 + 3 cells; element 0 and n2 + 1 exist because n1, n2 >= 0 (DOMAIN); malloc result is not "
-         "null-checked (observation, see C20.R4)",
-         ["link|link[0]", "link|link[n2+1]", "link|link[i]"]),
         (LABELS + ": p2 = b2[..] in [1, n2] and p1 = b1[..] in [1, n1], so p2 and p1 + n2 + 1 index link",
          ["link|link[p2]", "link|link[(p1+n2)+1]", "T|T[p2]"]),
         ("j = dset_find(i, link) is a set id in [1, n2] here (assert j < i); T has n2 + 3 cells",
